@@ -147,11 +147,14 @@ func runC01(h *Harness, child *rig.Child, c *C01Case, obs *c01Obs) *Failure {
 		s.Finish()
 	}()
 
-	lastArg := 0 // numeric argument shown by the hint at the last wait of the main loop
+	lastArg := 0   // numeric argument shown by the hint at the last wait of the main loop
+	lastMain := -1 // index of the step after which that wait happened
+	curStep := -1
 
 	note := func(st *rig.Stop) {
 		if st.Kind == "park" && st.Ev != nil && st.Ev.Kind == "main" {
 			lastArg = 0
+			lastMain = curStep
 
 			if m := c01ArgHint.FindStringSubmatch(st.Ev.Hint); m != nil {
 				fmt.Sscan(m[1], &lastArg)
@@ -237,6 +240,7 @@ func runC01(h *Harness, child *rig.Child, c *C01Case, obs *c01Obs) *Failure {
 		}
 
 		step := c.Steps[i]
+		curStep = i
 
 		if step.Fault != "" {
 			faulted = true
@@ -260,6 +264,26 @@ func runC01(h *Harness, child *rig.Child, c *C01Case, obs *c01Obs) *Failure {
 				// A command may legitimately read once per repetition of its numeric
 				// argument: the bound is above any argument the script can have typed.
 				n, limit, maxArg := 0, 1000, lastArg
+
+				// digits typed since that wait (also inside sequences a command
+				// read key by key) may have become an argument meanwhile
+				for _, sp := range c.Steps[lastMain+1 : i] {
+					val := 0
+
+					for _, b := range sp.bytes(e) {
+						if b >= '0' && b <= '9' {
+							if val < 100000000 {
+								val = val*10 + int(b-'0')
+							}
+						} else if b != 0x1b {
+							val = 0
+						}
+
+						if val > maxArg {
+							maxArg = val
+						}
+					}
+				}
 
 				if maxArg > 9999999 {
 					maxArg = 9999999
